@@ -171,8 +171,9 @@ def coq_gate(ctx, props_v, allowed_axioms=()):
         return res
     axioms = set()
     for line in out.splitlines():
-        m = re.match(r'^([A-Za-z_][\w\.\']*)\s*:', line)
-        if m:
+        # entries start in column 0 as `name : type` or, when the type is long, `name` alone on the line
+        m = re.match(r'^([A-Za-z_][\w\.\']*)\s*(?::|$)', line)
+        if m and m.group(1) not in ('Axioms', 'Closed', 'Fetching', 'Section', 'Variables'):
             axioms.add(m.group(1))
     res['axioms'] = sorted(axioms)
     closed = out.count('Closed under the global context')
